@@ -828,3 +828,198 @@ func PathValue(v ssa.Value) ssa.Value {
 	}
 	return v
 }
+
+// ---------- integer constants kept in fields of a local struct ----------
+
+// memCell stands for one integer field of a local struct variable whose address does not escape (pass :=
+// walkPass{ph: phaseTraverse, ...}; pass.ph = phasePreload; ... if pass.ph == phasePreload). The constant last stored
+// into it on the path is remembered under this key, and handed to every load of the field.
+type memCell struct {
+	*ssa.Alloc
+	field int
+}
+
+var (
+	memCells    = map[*ssa.Alloc]map[int]*memCell{}
+	memCellSafe = map[*ssa.Alloc]bool{}
+)
+
+// localCell returns the cell addr denotes, or nil: a field of integer type of a local struct none of whose uses
+// lets the address out (only field addresses that are stored through or loaded from, and loads of the whole value).
+func localCell(addr ssa.Value) *memCell {
+	fa, ok := addr.(*ssa.FieldAddr)
+	if !ok {
+		return nil
+	}
+	al, ok := fa.X.(*ssa.Alloc)
+	if !ok {
+		return nil
+	}
+	st, ok := al.Type().Underlying().(*types.Pointer).Elem().Underlying().(*types.Struct)
+	if !ok {
+		return nil
+	}
+	if b, ok := st.Field(fa.Field).Type().Underlying().(*types.Basic); !ok || b.Info()&types.IsInteger == 0 {
+		return nil
+	}
+	safe := allocSafe(al)
+	if !safe {
+		return nil
+	}
+	return cellOf(al, fa.Field)
+}
+
+// allocSafe: none of the uses of the local lets its address out.
+func allocSafe(al *ssa.Alloc) bool {
+	safe, seen := memCellSafe[al]
+	if seen {
+		return safe
+	}
+	safe = true
+	if al.Referrers() == nil {
+		safe = false
+	} else {
+		for _, r := range *al.Referrers() {
+			switch x := r.(type) {
+			case *ssa.FieldAddr:
+				if x.Referrers() == nil {
+					safe = false
+					break
+				}
+				for _, rr := range *x.Referrers() {
+					switch y := rr.(type) {
+					case *ssa.Store:
+						if y.Addr != ssa.Value(x) {
+							safe = false
+						}
+					case *ssa.UnOp:
+						if y.Op != token.MUL {
+							safe = false
+						}
+					case *ssa.DebugRef:
+					default:
+						safe = false
+					}
+				}
+			case *ssa.UnOp:
+				if x.Op != token.MUL {
+					safe = false
+				}
+			case *ssa.Store:
+				if x.Addr != ssa.Value(al) {
+					safe = false // the address itself is stored somewhere
+				}
+			case *ssa.DebugRef:
+			default:
+				safe = false // calls, closures: not modelled
+			}
+		}
+	}
+	memCellSafe[al] = safe
+	return safe
+}
+
+func cellOf(al *ssa.Alloc, field int) *memCell {
+	if memCells[al] == nil {
+		memCells[al] = map[int]*memCell{}
+	}
+	c := memCells[al][field]
+	if c == nil {
+		c = &memCell{al, field}
+		memCells[al][field] = c
+	}
+	return c
+}
+
+// memStep is the effect of one instruction on what the path knows about such cells.
+func memStep(pf *pathFacts, in ssa.Instruction) *pathFacts {
+	switch x := in.(type) {
+	case *ssa.Store:
+		if al, ok := x.Addr.(*ssa.Alloc); ok {
+			// the whole value is replaced: by a copy of another such local (a composite literal is built in a
+			// temporary and copied), or by something unknown
+			st, ok := al.Type().Underlying().(*types.Pointer).Elem().Underlying().(*types.Struct)
+			if !ok || !allocSafe(al) {
+				return pf
+			}
+			var src *ssa.Alloc
+			if u, ok := x.Val.(*ssa.UnOp); ok && u.Op == token.MUL {
+				if b, ok := u.X.(*ssa.Alloc); ok && allocSafe(b) {
+					src = b
+				}
+			}
+			q := pf
+			for i := 0; i < st.NumFields(); i++ {
+				if b, ok := st.Field(i).Type().Underlying().(*types.Basic); !ok || b.Info()&types.IsInteger == 0 {
+					continue
+				}
+				k, old := "", ""
+				if pf != nil {
+					old = pf.consts[cellOf(al, i)]
+					if src != nil {
+						k = pf.consts[cellOf(src, i)]
+					}
+				}
+				if k == old {
+					continue
+				}
+				if q == pf {
+					q = pf.clone()
+				}
+				if k == "" {
+					delete(q.consts, cellOf(al, i))
+				} else {
+					q.consts[cellOf(al, i)] = k
+				}
+			}
+			return q
+		}
+		c := localCell(x.Addr)
+		if c == nil {
+			return pf
+		}
+		k := ""
+		if cv := ConstVal(x.Val); cv != nil && cv.Kind() == constant.Int {
+			k = cv.ExactString()
+		} else if pf != nil {
+			k = pf.consts[x.Val]
+		}
+		old := ""
+		if pf != nil {
+			old = pf.consts[c]
+		}
+		if k == old {
+			return pf
+		}
+		q := pf.clone()
+		if k == "" {
+			delete(q.consts, c)
+		} else {
+			q.consts[c] = k
+		}
+		return q
+	case *ssa.UnOp:
+		if x.Op != token.MUL {
+			return pf
+		}
+		c := localCell(x.X)
+		if c == nil {
+			return pf
+		}
+		k, old := "", ""
+		if pf != nil {
+			k, old = pf.consts[c], pf.consts[x]
+		}
+		if k == old {
+			return pf
+		}
+		q := pf.clone()
+		if k == "" {
+			delete(q.consts, x)
+		} else {
+			q.consts[x] = k
+		}
+		return q
+	}
+	return pf
+}
